@@ -1,1 +1,148 @@
-import Soa.Model.Exec
+import Soa.Lemmas.Positions
+import Batteries.Data.List.Perm
+/-!
+# C07 — sorting and reordering move all fields by one stable permutation
+
+The generated code computes a permutation of positions with the user's comparator applied
+to the *rows* (`permutation.sort_by(|j, k| f(self.index(*j), self.index(*k)))`) and then
+applies it to every field array, nested ones included (`gatherWin`: `new[i] = old[p[i]]`
+in every leaf — the functional meaning of `Permutation::oneline(p).inverse()
+.apply_slice_in_place`, validated against the real crate by the correspondence).
+
+For every shape, every lockstep container, every window (whole slice or sub-slice) and every
+comparator: the rows afterwards are the rows before with the window replaced by its stable
+merge sort — which is std's `sort_by` on the array of structs (the output of a stable sort
+is unique for a total preorder).  `apply_index p` puts old element `p[i]` at position `i`.
+The multiset of elements is preserved.
+-/
+namespace Soa.C07
+open Soa View
+
+theorem mapLeaves_congr (f g : List Nat → List Nat) (n : Nat) (h : ∀ xs : List Nat, xs.length = n → f xs = g xs) :
+    ∀ c : Cols, c.lock n → mapLeaves f c = mapLeaves g c
+  | .leaf xs, hc => by simp [mapLeaves, h xs (lock_leaf.mp hc)]
+  | .nest fs, hc => by
+    rw [lock_nest] at hc
+    simp only [mapLeaves]
+    congr 1
+    exact go fs hc.2
+where go : ∀ fs : List Cols, (∀ c ∈ fs, c.lock n) → mapLeaves.mapLeavesL f fs = mapLeaves.mapLeavesL g fs
+  | [], _ => rfl
+  | c :: cs, hc => by
+    simp only [mapLeaves.mapLeavesL]
+    rw [mapLeaves_congr f g n h c (hc c (by simp)), go cs (fun x hx => hc x (by simp [hx]))]
+
+theorem map_getD_eq_filterMap {α : Type} (xs : List α) (d : α) (ps : List Nat) (h : ∀ p ∈ ps, p < xs.length) :
+    ps.map (fun p => xs.getD p d) = ps.filterMap (xs[·]?) := by
+  induction ps with
+  | nil => rfl
+  | cons p ps ih =>
+    have hp := h p (by simp)
+    simp only [List.map_cons, List.filterMap_cons, List.getElem?_eq_getElem hp]
+    rw [ih (fun q hq => h q (by simp [hq]))]
+    simp [List.getD_eq_getElem?_getD, List.getElem?_eq_getElem hp]
+
+/-- **one permutation for all fields**: gathering every leaf array (of every nested
+    container) by the positions `ps` inside the window `w` gathers the rows -/
+theorem gatherWin_rows (c : Cols) (n : Nat) (hc : c.lock n) (w : Win) (ps : List Nat) (hps : ∀ p ∈ ps, p < n) :
+    (gatherWin c w ps).rows = c.rows.take w.s ++ ps.filterMap (c.rows[·]?) ++ c.rows.drop (w.s + w.l) := by
+  unfold gatherWin
+  rw [mapLeaves_congr _ (fun l => l.take w.s ++ ps.filterMap (l[·]?) ++ l.drop (w.s + w.l)) n (by
+    intro xs hx
+    rw [map_getD_eq_filterMap xs 0 ps (by intro p hp; rw [hx]; exact hps p hp)]) c hc]
+  exact mapLeaves_rows (fun _ => true) (fun xs => xs.take w.s ++ ps.filterMap (xs[·]?) ++ xs.drop (w.s + w.l))
+    (by intros; simp [List.map_take, List.map_drop, List.map_filterMap]) n rfl c hc
+
+theorem isPerm_bound (p : List Nat) (n : Nat) (h : isPerm p n = true) : p.length = n ∧ ∀ i ∈ p, i < n := by
+  simp only [isPerm, Bool.and_eq_true, beq_iff_eq, List.all_eq_true, List.mem_range, List.contains_eq_mem,
+    decide_eq_true_eq] at h
+  refine ⟨h.1, ?_⟩
+  -- a list of length n containing every number below n contains nothing else (pigeonhole)
+  intro i hi
+  rcases Nat.lt_or_ge i n with hlt | hge
+  · exact hlt
+  exfalso
+  have hsub : List.range n ⊆ p.erase i := by
+    intro j hj
+    have hjn := List.mem_range.mp hj
+    have hjp := h.2 j hjn
+    exact (List.mem_erase_of_ne (by omega)).mpr hjp
+  have hlen := List.Subperm.length_le (List.subperm_of_subset (List.nodup_range) hsub)
+  rw [List.length_range, List.length_erase_of_mem hi] at hlen
+  have h1 := h.1
+  have hpos := List.length_pos_of_mem hi
+  omega
+
+/-- **`apply_index p`**: the old element `p[i]` ends up at position `i`, in every field -/
+theorem apply_index (c : Cols) (n : Nat) (hc : c.lock n) (p : List Nat) (hp : isPerm p n = true) :
+    (gatherWin c ⟨0, n⟩ p).rows = p.filterMap (c.rows[·]?) := by
+  have hb := isPerm_bound p n hp
+  rw [gatherWin_rows c n hc ⟨0, n⟩ p hb.2]
+  simp [List.drop_of_length_le (Nat.le_of_eq (rows_len n c hc))]
+
+/-- argsort over a window of positions, then gather = merge sort of that window of rows -/
+theorem argsort_window {α : Type} (le : α → α → Bool) (R : List α) (d : α) (w : Win) (hw : w.s + w.l ≤ R.length) :
+    ((List.range' w.s w.l).mergeSort (fun j k => le (R.getD j d) (R.getD k d))).map (R.getD · d) =
+      ((R.drop w.s).take w.l).mergeSort le := by
+  have h := List.map_mergeSort (r := fun j k => le (R.getD j d) (R.getD k d)) (s := le)
+      (f := (R.getD · d)) (l := List.range' w.s w.l) (by intros; rfl)
+  rw [h]
+  congr 1
+  apply List.ext_getElem
+  · simp; omega
+  · intro i h1 h2
+    simp at h1 h2
+    have : w.s + i < R.length := by omega
+    simp [List.getD_eq_getElem?_getD, List.getElem?_eq_getElem this]
+
+/-- **sorting** (whole slice or sub-slice, any comparator on rows): the window of rows is
+    replaced by its stable merge sort, the rest is untouched — every field array, nested
+    ones included, moved by the same permutation -/
+theorem sort_rows (c : Cols) (n : Nat) (hc : c.lock n) (w : Win) (hw : w.s + w.l ≤ n)
+    (le : Elem → Elem → Bool) (d : Elem) :
+    (gatherWin c w ((List.range' w.s w.l).mergeSort
+        (fun j k => le (c.rows.getD j d) (c.rows.getD k d)))).rows =
+      c.rows.take w.s ++ ((c.rows.drop w.s).take w.l).mergeSort le ++ c.rows.drop (w.s + w.l) := by
+  have hlen := rows_len n c hc
+  have hmem : ∀ p ∈ (List.range' w.s w.l).mergeSort (fun j k => le (c.rows.getD j d) (c.rows.getD k d)), p < n := by
+    intro p hp
+    have := (List.mem_mergeSort).mp hp
+    simp [List.mem_range'] at this
+    omega
+  rw [gatherWin_rows c n hc w _ hmem]
+  rw [← map_getD_eq_filterMap c.rows d _ (by intro p hp; rw [hlen]; exact hmem p hp)]
+  rw [argsort_window le c.rows d w (by omega)]
+
+/-- what the executable model compares (ids read at positions of the columns) is what the
+    specification compares (ids of the rows) -/
+theorem key_on_columns (c : Cols) (n : Nat) (hc : c.lock n) (p : Nat) (hp : p < n) (d : Elem)
+    (key : List Nat → Nat) : key (rowIds c p) = key (c.rows.getD p d).ids := by
+  obtain ⟨r, h1, h2⟩ := rowIds_eq c n p hc hp
+  rw [h2]
+  simp [List.getD_eq_getElem?_getD, h1]
+
+/-- the multiset of elements is preserved -/
+theorem sort_perm (R : List Elem) (w : Win) (le : Elem → Elem → Bool) :
+    (R.take w.s ++ ((R.drop w.s).take w.l).mergeSort le ++ R.drop (w.s + w.l)).Perm R := by
+  have h1 : (((R.drop w.s).take w.l).mergeSort le).Perm ((R.drop w.s).take w.l) := List.mergeSort_perm _ _
+  have h2 : R = R.take w.s ++ ((R.drop w.s).take w.l) ++ R.drop (w.s + w.l) := by
+    rw [List.append_assoc, ← List.drop_drop, List.take_append_drop, List.take_append_drop]
+  conv => rhs; rw [h2]
+  exact List.Perm.append_right _ (List.Perm.append_left _ h1)
+
+/-- the sorted window is ordered and the sort is stable: any ordered sub-sequence of the
+    window keeps its relative order (in particular equal keys keep their original order) -/
+theorem sort_sorted_stable (seg : List Elem) (le : Elem → Elem → Bool)
+    (trans : ∀ a b c, le a b = true → le b c = true → le a c = true)
+    (total : ∀ a b, (le a b || le b a) = true) :
+    (seg.mergeSort le).Pairwise (fun a b => le a b = true) ∧
+    ∀ sub : List Elem, sub.Sublist seg → sub.Pairwise (fun a b => le a b = true) → sub.Sublist (seg.mergeSort le) :=
+  ⟨List.pairwise_mergeSort trans total seg, fun sub hs hp => List.sublist_mergeSort trans total hp hs⟩
+
+/-! non-vacuity: a nested 3-field container, sorting positions 0..3 by a key -/
+def exC : Cols := .nest [.leaf [8, 16, 24], .nest [.leaf [9, 17, 25], .leaf [10, 18, 26]]]
+example : exC.lock 3 := by simp [exC]
+example : (gatherWin exC ⟨0, 3⟩ [2, 0, 1]).leaves = [[24, 8, 16], [25, 9, 17], [26, 10, 18]] := by decide
+example : isPerm [2, 0, 1] 3 = true := by decide
+
+end Soa.C07
